@@ -1,5 +1,9 @@
 (* C20 model driver: same line protocol as harness/c20/roundtrip_harness.cpp
-   (commands Y G C V S N as there; W <dict> <used> = used-values form of print_contents + its re-parse) *)
+   (commands Y G C V S N as there; W <dict> <used> = used-values form of print_contents + its re-parse)
+   snapshot orderings (multi-line answers, closed by a line "e"):
+     SW sx sy sz bx by bz   the appends of the task based writer: w <position> <subgrid> <cell> <ix> <iy> <iz>
+     SR sx sy sz nx ny nz   the stores of the task based reader:  r <ix> <iy> <iz> <cell_index>
+     SL nx ny nz            the appends of the legacy writer:     l <position> <long index> <ix> <iy> <iz> *)
 open C20_model
 
 let explode s = List.init (String.length s) (String.get s)
@@ -14,6 +18,19 @@ let unhex (h : string) : char list =
 
 let rec pos_to_int = function XH -> 1 | XO p -> 2 * pos_to_int p | XI p -> (2 * pos_to_int p) + 1
 let z_to_int = function Z0 -> 0 | Zpos p -> pos_to_int p | Zneg p -> -pos_to_int p
+let rec pos_of_int n = if n <= 1 then XH else if n land 1 = 0 then XO (pos_of_int (n lsr 1)) else XI (pos_of_int (n lsr 1))
+let z_of_int n = if n = 0 then Z0 else if n > 0 then Zpos (pos_of_int n) else Zneg (pos_of_int (-n))
+let z3 a b c = ((z_of_int (int_of_string a), z_of_int (int_of_string b)), z_of_int (int_of_string c))
+let flat tag rows =
+  let b = Buffer.create 65536 in
+  List.iter
+    (fun row ->
+      Buffer.add_string b tag;
+      List.iter (fun z -> Buffer.add_char b ' '; Buffer.add_string b (string_of_int (z_to_int z))) row;
+      Buffer.add_char b '\n')
+    rows;
+  Buffer.add_string b "e";
+  Buffer.contents b
 let rec nat_of_int n = if n <= 0 then O else S (nat_of_int (n - 1))
 let fl_of_hex s = Float64.of_float (Int64.float_of_bits (Scanf.sscanf s "%Lx" (fun x -> x)))
 let hex_of_fl f = Printf.sprintf "%016Lx" (Int64.bits_of_float (Float64.to_float f))
@@ -70,6 +87,9 @@ let () =
         | [ "T" ] ->
             (* the model's unit table: names, and whether its internal relations hold *)
             "T " ^ String.concat "," (List.map (fun (n, _) -> implode n) unit_table) ^ " consistent=" ^ string_of_bool table_consistent
+        | [ "SW"; sx; sy; sz; bx; by; bz ] -> flat "w" (wr_entries_flat (z3 sx sy sz) (z3 bx by bz))
+        | [ "SR"; sx; sy; sz; nx; ny; nz ] -> flat "r" (rd_entries_flat (z3 sx sy sz) (z3 nx ny nz))
+        | [ "SL"; nx; ny; nz ] -> flat "l" (lg_wr_entries_flat (z3 nx ny nz))
         | [ "" ] -> ""
         | _ -> "? " ^ line
       in
